@@ -12,6 +12,7 @@ import TemplVerif.Drive.C0809
 import TemplVerif.Drive.C0607
 import TemplVerif.Drive.C10
 import TemplVerif.Drive.C13
+import TemplVerif.Drive.C12
 import Std.Data.HashMap
 open TemplVerif TemplVerif.Drive
 
@@ -28,6 +29,7 @@ def dispatch (ws : List String) : Verdict :=
   | "C11" :: rest => C11.handle rest
   | "C10" :: rest => C10.handle rest
   | "C13" :: rest => C13.handle rest
+  | "C12" :: rest => C12.handle rest
   | "C06" :: rest => C0607.handleC06 rest
   | "C07" :: rest => C0607.handleC07 rest
   | "C08" :: rest => C0809.handleC08 rest
